@@ -1,28 +1,77 @@
+_L = "Props.C12life."
+_LIFE = [
+    # partition consumer (dying / trigger / feeder hand-shake)
+    "PC.step_inv", "PC.never_double_close_pc", "PC.no_send_after_close_pc", "PC.holder_finds_channels_open",
+    "PC.outputs_closed_after_last_event_pc", "PC.close_order_pc", "PC.no_deadlock_after_close_pc",
+    # broker worker of the consumer
+    "BC.never_double_close_bc", "BC.no_send_after_close_bc", "BC.input_closed_when_unreferenced", "BC.close_order_bc",
+    "BC.no_deadlock_after_close_bc", "BC.close_terminates_bc",
+    # consumer
+    "Cons.close_order_consumer",
+    # consumer group + session
+    "Grp.never_double_close_group", "Grp.no_send_after_close_group", "Grp.outputs_closed_after_last_event_group",
+    "Grp.close_order_group", "Grp.close_order_session", "Grp.claims_joined_after_all_claims_done", "Grp.no_deadlock_after_close_group",
+    # offset manager + POM
+    "OM.never_double_close_om", "OM.close_order_om", "OM.final_loop_bounded", "OM.outputs_closed_after_last_event_om",
+    "OM.no_deadlock_after_close_om", "OM.close_terminates_om", "OM.close_order_wf",
+    "POM.never_double_close_pom", "POM.outputs_closed_after_last_event_pom", "POM.close_order_pom",
+    # client
+    "Cli.never_double_close_client", "Cli.close_order_client", "Cli.no_broker_close_after_maps_nil", "Cli.close_twice_harmless_client",
+    "Cli.no_deadlock_after_close_client", "Cli.close_terminates_client",
+    # broker connection
+    "Br.never_double_close_broker", "Br.no_send_after_close_broker", "Br.close_order_broker", "Br.outputs_closed_after_last_event_broker",
+    "Br.close_twice_harmless_broker", "Br.no_deadlock_after_close_broker", "Br.close_terminates_broker",
+]
 CFG = dict(
-    lean_modules=["SaramaVerif.Model.Producer", "SaramaVerif.Props.C01", "SaramaVerif.Props.C12", "SaramaVerif.Model.Feeder", "SaramaVerif.Props.C18c"],
-    lean_support=["SaramaVerif.Driver.ProducerTrace", "SaramaVerif.Model.PartProd", "SaramaVerif.Model.IdemBroker"],
+    lean_modules=["SaramaVerif.Model.Producer", "SaramaVerif.Props.C01", "SaramaVerif.Props.C12", "SaramaVerif.Model.Feeder", "SaramaVerif.Props.C18c",
+                  "SaramaVerif.Model.Lifecycle", "SaramaVerif.Props.C12life"],
+    lean_support=["SaramaVerif.Driver.ProducerTrace", "SaramaVerif.Model.PartProd", "SaramaVerif.Model.IdemBroker",
+                  "SaramaVerif.Driver.LifecycleTrace"],
     model="C12",
     overlay=["sim", "c12"],
     required_theorems=["Props.C18c.step_inv", "Props.C18c.consumer_interceptors_once", "Props.C18c.deliver_follows_icept", "Props.C18c.one_ack_per_response", "Props.C18c.nothing_after_closed",
                        "Props.C12.shutdown_order", "Props.C12.close_once", "Props.C12.no_send_after_close",
-                       "Props.C12.outputs_closed_after_last_event", "Props.C12.no_accept_after_shutdown"],
+                       "Props.C12.outputs_closed_after_last_event", "Props.C12.no_accept_after_shutdown"] + [_L + t for t in _LIFE],
     n={"quick": 220, "thorough": 3000, "search": 400},
     thorough_seeds=3,
     timeout={"quick": 900, "thorough": 3400},
     level="proof",
     assumptions=[
         "producer: the shutdown handshake is part of the accounting model (theorems); completion in time is observed with an 8 s bound",
-        "partition consumer / consumer: close-point enumeration on the real code only (no Lean model of the dying/trigger/feeder handshake yet); consumer group and offset manager closes are exercised by the C07 / C06 harnesses",
-        "the application services the output channels and stops submitting before it closes, as the API documentation requires",
+        "consumer side (partition consumer, broker worker, consumer, group + session, offset manager + POM, client, broker): the Lean models are "
+        "ACCEPTORS (specifications of the hand-shakes over the hook events), one per object; the theorems hold for every accepted event sequence and "
+        "every real run of the harness scenarios is checked to be accepted (trace validation) - they are not a proof about the Go code itself",
+        "the hook events (verifEvtKV \"lc.*\", build tag verif) are emitted immediately before the announced action by the goroutine performing it and are "
+        "recorded under one mutex: the recorded order is a linearisation consistent with happens-before; an event and its action are not atomic, so a "
+        "racy send-after-close whose hooks happen to be recorded in the good order is caught by the panic oracle (PanicHandler / recover), not by the replay",
+        "each acceptor sees its own object: cross-object facts are checked by feeding a shared event to both acceptors (child -> broker worker input, POM -> offset "
+        "manager, child -> consumer registry), there is no composed model of a whole consumer; the feeder's cf.* events are attributed to the partition consumer "
+        "most recently started for that topic/partition",
+        "group spec: no session starts after leave() (Consume racing with Close is not exercised by the harness); handleError's closed-check and the send on "
+        "Errors() are two steps in the real code, so `no send after close` for the group's Errors channel is validated on the observed runs and guarded by the "
+        "panic oracle, it does not follow from the hand-shake (error-forwarding goroutines are not joined by release)",
+        "progress lemmas (no_deadlock_after_close_X, close_terminates_X) are about the acceptors: an enabled step exists / a measure decreases; that the real "
+        "goroutine is scheduled and the network call inside it returns is observed (8 s bound), not proved",
+        "paths modelled but not reached by the quick-tier scenarios: offset-out-of-range shutdown of a partition consumer, dispatcher re-dispatch failure "
+        "(trigger sent to itself), left-over buffer flush of the subscription manager, release(false) of a half-built session",
+        "the application services the output channels and stops submitting before it closes, as the API documentation requires; partition consumers are closed "
+        "before their consumer (checked on the traces by the consumer acceptor)",
     ],
-    trusted_base=["hooks in /repo (build tag verif)", "simulated cluster"],
+    trusted_base=["hooks in /repo (build tag verif), incl. verifID (per-object serial numbers)", "simulated cluster",
+                  "harness/life (event recorder: renumbering of object ids, dropping events of objects of an earlier scenario)"],
     manifest=dict(
         text="Producer - proof + trace validation: in every accepted event sequence (AsyncClose may be interleaved anywhere) the output channels are closed at most once, only after the shutdown marker passed the dispatcher and the "
              "in-flight counter reached zero, never with a message or marker still in the pipeline; no terminal event is accepted after the close (no send on a closed channel), no new message is accepted after the shutdown marker. "
+             "Consumer side - proof about hand-shake acceptors + trace validation: for the partition consumer (dying/trigger/feeder across dispatcher, feeder and broker worker), the broker worker (reference count, input/wait/"
+             "newSubscriptions), the consumer, the consumer group with its session (closed, lock, leave, errors; release: cancel, claims joined, Cleanup, offsets.Close, hbDying, hbDead), the offset manager and its POMs (closing, "
+             "mainLoop, bounded final flush loop, releasePOMs), the client (closer/closed, brokers, maps; second Close) and the broker connection (responses, receiver drain, done, conn; second Close) Lean theorems show for "
+             "every accepted event sequence: no channel closed twice, nothing sent after a close, public channels closed only after the last event feeding them (Messages/Errors after the feeder's last delivery, group Errors after "
+             "the last session was released, POM errors after the last handleError, broker done after every promise was taken), the order of each hand-shake, an enabled step in every non-terminal state after the close, and a "
+             "decreasing measure for broker worker, offset manager (Retry.Max+1 flushes), client and broker. Every consumer / group / client scenario replays the hook events of the real goroutines through these acceptors. "
              "Close-point enumeration on the real code: every producer scenario (fault scripts active: mid-request, mid-retry, backing off, cluster partly unreachable) is re-run with AsyncClose after the k-th hook event for k spread over "
-             "the whole run; consumer scenarios close partition consumers (AsyncClose and Close, then Close again) and the consumer after the k-th delivered message with fetch faults active. Oracle: completion within the bound, channels "
-             "closed, no panic, every message still exactly one event.",
-        note="Trusted: Lean kernel, hooks, sim cluster. Exploration-level for the consumer-side components; the Lean theorems cover the producer handshake only. Time bounds are observed, not proved.",
-        technique="Lean 4 proof of the producer shutdown handshake + trace validation + close-at-every-k enumeration on the real code",
+             "the whole run; consumer scenarios close partition consumers (AsyncClose and Close, then Close again) and the consumer after the k-th delivered message with fetch faults active; group scenarios cancel or Close during a "
+             "session; client scenarios Close with calls in flight, then again. Oracle: completion within the bound, channels closed, no panic (callers and sarama's own goroutines), every message still exactly one event.",
+        note="Trusted: Lean kernel, hooks, sim cluster, event recorder. The consumer-side models are specifications validated against the runs, not extracted from the code; time bounds are observed, not proved.",
+        technique="Lean 4 proofs (producer accounting model; consumer-side hand-shake acceptors) + trace validation of the real goroutines' hook events + close-at-every-k enumeration on the real code",
     ),
 )
